@@ -14,6 +14,7 @@ CONSTANTS
   ReadMax = {4}
   Closers = {}
   MuxDroppers = {}
+  Cancellers = {}
   DgSenders = {}
   MaxDgrams = 0
   Binders = {}
